@@ -44,7 +44,7 @@ func c08GenState(t *rapid.T) c08StateCase {
 	c := c08StateCase{Shape: dagshape.Gen(t, p)}
 	n := rapid.IntRange(3, 24).Draw(t, "nops")
 	for i := 0; i < n; i++ {
-		k := rapid.SampledFrom([]string{"add", "add", "add", "add", "badpayload", "failwrite", "dup", "orphan", "reopen", "concurrent", "sched", "sched", "repair"}).Draw(t, "k")
+		k := rapid.SampledFrom([]string{"add", "add", "add", "add", "badpayload", "failwrite", "cancel", "dup", "orphan", "reopen", "concurrent", "sched", "sched", "repair"}).Draw(t, "k")
 		op := c08Op{K: k, Sel: rapid.Uint32().Draw(t, "sel")}
 		switch k {
 		case "add":
@@ -259,6 +259,26 @@ func c08RunState(x *h.Ctx, c c08StateCase) {
 				x.Fatalf("injected failure did not surface")
 			}
 			rollbacks++
+		case "cancel":
+			// the caller's context is cancelled after the write body ran, before commit: the store rolls the transaction back
+			if next >= len(order) {
+				continue
+			}
+			cctx, cancel := context.WithCancel(context.Background())
+			f.kv.mu.Lock()
+			f.kv.onWriteBody = func(int) { cancel() }
+			f.kv.mu.Unlock()
+			t := txs[order[next]]
+			err := f.st.Add(cctx, t.Tx, t.Payload)
+			f.kv.mu.Lock()
+			f.kv.onWriteBody = nil
+			f.kv.mu.Unlock()
+			cancel()
+			if err == nil {
+				x.Fatalf("cancelled write did not fail")
+			}
+			rollbacks++
+			x.Class("cancelled-context-rollback")
 		case "dup":
 			if next == 0 {
 				continue
